@@ -199,6 +199,8 @@ class Module(object):
         self.normalize_log = normalize.inline_callable_aliases(self.tree)
         self.normalize_log += normalize.inline_new_helpers(self.tree, name)
         self.normalize_log += normalize.inline_callable_aliases(self.tree)
+        self.normalize_log += normalize.split_tuple_assignments(self.tree)
+        self.normalize_log += normalize.eta_reduce_callbacks(self.tree)
         self.normalize_log += normalize.desugar_struct_objects(self.tree)
         self.normalize_log += normalize.unroll_reflective_loops(self.tree)
         self.normalize_log += normalize.thread_flags(self.tree)
